@@ -808,17 +808,17 @@ pub fn property() -> Property {
             "normal forms: NaN payload/sign not representable in text; `[.]` ≡ `.`; REF IUPAC codes reduced as VCF §1.6.1.4 prescribes; first-allele phasing implicit before 4.4".into(),
         ],
         subs: vec![
-            sub("header", "non-trivial = ≥3 structured lines; distinct by hash of the header model", header_strategy, check_header, 20_000, 600_000).boxed(),
+            sub("header", "non-trivial = ≥3 structured lines; distinct by hash of the header model", header_strategy, check_header, 80_000, 1_000_000).boxed(),
             sub(
                 "records",
                 "one case = header + 0..10 records, each record is one evaluation; non-trivial = some record has an INFO field or sample columns; distinct by hash of the document",
                 doc_strategy,
                 check_doc,
-                12_000,
-                400_000,
+                60_000,
+                800_000,
             )
             .boxed(),
-            sub("safe_domain", "documents of Mode::vcf_safe() (what other properties reuse): must pass all record oracles with no known finding; non-trivial as in `records`", safe_strategy, check_safe, 3_000, 60_000).boxed(),
+            sub("safe_domain", "documents of Mode::vcf_safe() (what other properties reuse): must pass all record oracles with no known finding; non-trivial as in `records`", safe_strategy, check_safe, 12_000, 120_000).boxed(),
         ],
         max_parallel: 16,
     }
